@@ -166,12 +166,12 @@ func (eng *engine) activateReactors(ctx context.Context, numEventLoop int) error
 	el.engine = eng
 	el.poller = p
 	el.eventHandler = eng.eventHandler
+	eng.ingress = el
 	for _, ln := range eng.listeners {
 		if err = el.poller.AddRead(ln.packPollAttachment(el.accept0), true); err != nil {
 			return err
 		}
 	}
-	eng.ingress = el
 
 	// Start the main reactor in the background.
 	eng.concurrency.Go(el.rotate)
